@@ -329,6 +329,11 @@ def gen_contexts(run):
 
 def gen_strings(run):
     cases = []
+    # a string literal without its closing quote (legal as the last thing on a line) keeps every character
+    for tgt in ("Z$", "N$(1)", "M$(2)"):
+        for lit in ("AB", "A", "", "A B ", "X:Y", "1,2"):
+            cases.append({"text": f'10 DIM M$(3)\n20 {tgt}="{lit}\n30 Y$={tgt}+"C":Y=LEN({tgt})\n', "features": {"string", "unterminated-literal"}, "origin": f"unterminated {tgt}={lit!r}"})
+            cases.append({"text": f'10 DIM M$(3)\n20 IF 1=1 THEN {tgt}="{lit}\n30 Y=LEN({tgt})\n', "features": {"string", "unterminated-literal"}, "origin": f"unterminated in THEN {tgt}={lit!r}"})
     atoms = ['A$', 'B$', '"X"', 'LEFT$(A$,1)', '"" ']
     for a, b in itertools.product(atoms, repeat=2):
         cases.append({"text": f'10 A$="AB":B$="C"\n20 Z$={a}+{b}:PRINT Z$;LEN(Z$)\n', "features": {"string", "concat"}, "origin": f"concat {a}+{b}"})
@@ -435,7 +440,8 @@ def gen_functions(run):
         o = {"initialize_vars": True, "default_str_storage": st}
         for t in ('A$=STRING$(40,"-")+">":Z=LEN(A$)', 'A$="<"+STRING$(33,"x")+HEX$(255):Z=LEN(A$)', 'B$=STRING$(20,"ab"):A$=B$+B$+"!":Z=LEN(A$)',
                   'Z=2:IF STRING$(40,"a")+"b">STRING$(40,"a")+"a" THEN Z=1', 'A$=LEFT$(STRING$(50,"q"),41)+MID$("XYZ",2,1):Z=ASC(RIGHT$(A$,1))',
-                  'Z=INSTR(1,STRING$(36,"-")+"AB","AB")', 'Z=LEN(STRING$(33,"*")+STRING$(20,"+"))', 'A$=STRING$(33,CHR$(65)):Z=VAL(HEX$(LEN(A$)))'):
+                  'Z=INSTR(1,STRING$(36,"-")+"AB","AB")', 'N$(1)=STRING$(40,"-")+">":Z=LEN(N$(1))', 'B$=STRING$(30,"b"):N$(2)=B$+B$:Z=LEN(N$(2)+N$(0))',
+                  'DIM M$(2):M$(1)=STRING$(33,"m")+"!":Z=ASC(RIGHT$(M$(1),1))', 'Z=LEN(STRING$(33,"*")+STRING$(20,"+"))', 'A$=STRING$(33,CHR$(65)):Z=VAL(HEX$(LEN(A$)))'):
             cases.append({"text": f"10 {t}\n", "opts": o, "features": {"function", "long-string", "storage:%d" % st}, "origin": f"long {t} size {st}"})
     # functions inside IF conditions: every branch form; thresholds on both sides of the Color BASIC value
     import math
